@@ -88,6 +88,7 @@ func c16Execute(c *c16Case, rt *rapid.T, base string, rec *vh.Recorder) (fail *v
 		cmid++
 		return n.post(s, line, cmid)
 	}
+	lastAccepted := ""
 	accepted, rejectedStale, invalid, restoredAfterAccept := 0, 0, 0, false
 	origins := false
 	check := func(what string) *vh.Failure {
@@ -139,6 +140,15 @@ func c16Execute(c *c16Case, rt *rapid.T, base string, rec *vh.Recorder) (fail *v
 	step := func(a c16Action) *vh.Failure {
 		switch a.Kind {
 		case "config", "badtoml":
+			if a.TOML == "<the text in force>" {
+				// the administrator posts the text that was accepted last once more (the only way to
+				// lift a GLINE ban is to post a configuration that does not list it)
+				if lastAccepted == "" {
+					return nil
+				}
+				a.TOML = lastAccepted
+				lab["c16:same-text-posted-again"] = true
+			}
 			hdr := map[string]string{}
 			revOK := false
 			switch a.Rev {
@@ -169,6 +179,7 @@ func c16Execute(c *c16Case, rt *rapid.T, base string, rec *vh.Recorder) (fail *v
 					return vh.Failf("valid-update-rejected", "POST /config with a parsable config and the current revision %d answered %d %s", rev, r.Code, r.Body.String())
 				}
 				rev++
+				lastAccepted = a.TOML
 				expected = parsed
 				// the ban table in force is the one of the posted text, decoded here independently of
 				// config.FromString (and never sharing a map with the implementation)
@@ -250,6 +261,22 @@ func c16Execute(c *c16Case, rt *rapid.T, base string, rec *vh.Recorder) (fail *v
 					oper = &sessions[k]
 				}
 			}
+			if oper == nil && len(expected.IRC.Operators) > 0 {
+				// nobody is operator yet: the first logged-in session uses the credentials in force
+				o0 := expected.IRC.Operators[0]
+				if o0.Name != "" && o0.Password != "" && !strings.ContainsAny(o0.Name+o0.Password, " ") {
+					for k := range sessions {
+						for _, ws := range worldOf(ircServer).Sessions {
+							if robust.IdFromRaftIndex(ws.Id) == sessions[k].Num && ws.Reply == 0 && ws.LoggedIn && !ws.Server && oper == nil {
+								post(sessions[k], "OPER "+o0.Name+" "+o0.Password)
+								if s, err := ircServer.GetSession(robust.Id{Id: sessions[k].Num}); err == nil && s.Operator {
+									oper = &sessions[k]
+								}
+							}
+						}
+					}
+				}
+			}
 			if oper == nil {
 				return nil
 			}
@@ -302,7 +329,11 @@ func c16Execute(c *c16Case, rt *rapid.T, base string, rec *vh.Recorder) (fail *v
 		na := rapid.IntRange(8, 40).Draw(rt, "nactions")
 		for k := 0; k < na; k++ {
 			var a c16Action
-			switch rapid.IntRange(0, 15).Draw(rt, "kind") {
+			switch rapid.IntRange(0, 17).Draw(rt, "kind") {
+			case 16:
+				a = c16Action{Kind: "config", TOML: "<the text in force>", Rev: "current"}
+			case 17:
+				a = c16Action{Kind: "gline", Sess: rapid.IntRange(0, 3).Draw(rt, "sess")}
 			case 0, 1, 2, 3, 4:
 				a = c16Action{Kind: "config", TOML: ircgen.GenConfigOdd(rt).TOML, Rev: rapid.SampledFrom([]string{"current", "current", "current", "stale", "future", "garbage", "missing"}).Draw(rt, "rev")}
 			case 5:
